@@ -358,6 +358,17 @@ impl Storage {
 
         batch.commit().expect("batch commit should be ok");
 
+        // The pending matched blocks will be discarded, but the scripts which are not replaced
+        // (partial / delete) still require them: block filters have to be synchronized again
+        // from the earliest of them, since the min filtered block number is already beyond them.
+        if !matches!(command, SetScriptsCommand::All) {
+            if let Some((start_number, _, _)) = self.get_earliest_matched_blocks() {
+                let before_matched = start_number.saturating_sub(1);
+                let current = min_block_number.unwrap_or_else(|| self.get_min_filtered_block_number());
+                min_block_number = Some(current.min(before_matched));
+            }
+        }
+
         if let Some(min_number) = min_block_number {
             self.update_min_filtered_block_number(min_number);
         }
